@@ -110,7 +110,7 @@ func admRun(t *testing.T, lines []string) []string {
 				if f[5] == "fail" {
 					w.srv.Use(func(ctx *types.HttpContext, next func(error)) { next(errors.New("middleware says no")) })
 				}
-				outs = append(outs, "ok")
+				outs = appendLive(outs, "ok")
 			case "mk":
 				before := len(w.socks)
 				if f[2] == "polling" {
@@ -119,32 +119,32 @@ func admRun(t *testing.T, lines []string) []string {
 					w.wsDial("/engine.io/?transport=websocket&EIO="+f[3], nil, false)
 				}
 				if len(w.socks) == before+1 {
-					outs = append(outs, fmt.Sprintf("s%d", before))
+					outs = appendLive(outs, fmt.Sprintf("s%d", before))
 				} else {
-					outs = append(outs, "failed")
+					outs = appendLive(outs, "failed")
 				}
 			case "kill":
 				if s := w.sock(atoi(f[2])); s != nil {
 					s.Close(true)
 					synctest.Wait()
 				}
-				outs = append(outs, "ok")
+				outs = appendLive(outs, "ok")
 			case "req":
-				outs = append(outs, w.admReq(f))
+				outs = appendLive(outs, w.admReq(f))
 			case "route":
 				before := len(w.served)
 				nsock := len(w.socks)
 				h := w.request("GET", string(unhx(f[2]))+"?transport=polling&EIO=4", nil, nil, false, true)
 				switch {
 				case len(w.served) > before:
-					outs = append(outs, w.served[len(w.served)-1])
+					outs = appendLive(outs, w.served[len(w.served)-1])
 				case len(w.socks) == nsock+1 && h.rec.Code == 200:
-					outs = append(outs, "engine")
+					outs = appendLive(outs, "engine")
 				default:
-					outs = append(outs, fmt.Sprintf("other status=%d", h.rec.Code))
+					outs = appendLive(outs, fmt.Sprintf("other status=%d", h.rec.Code))
 				}
 			default:
-				outs = append(outs, "bad-op")
+				outs = appendLive(outs, "bad-op")
 			}
 		}
 	})
